@@ -72,6 +72,11 @@ CLAIMED.update({
    text='BOUNDED (2 correspondences, 3-D double points): for every parameter vector the row written for a correspondence is its linearised point-to-plane residual n.(s + w x s + t - q), the solver is sized for the number of correspondences, and the returned matrix is identity + skew(w) with translation t for the solver estimate (aligned and index-based overloads, any prior object state). Optimality of the estimate is C07; exact/O(t^2) recovery, preconditioning invariance, 2-D, float and homogeneous points are NOT decided.',
    note=TB_B + '; LeastSquares::estimateUsingSVD / setDataSize used by contract (specs/C05/meta.json); every obligation is labelled bounded in the evidence and none is counted as discharged', ref='DESIGN.md 9.8'),
 })
+CLAIMED.update({
+ 'C09': dict(cat='other', technique='BOUNDED stand-in: SMT verification conditions over the reals generated from the real NormalAndCurvatureEstimation<Vector3d>::compute and flipNormalTowardOriginCoordinate (cloud of 2 points), the kd-tree search and the eigen-decomposition behind an assumed contract; never counted as proved',
+   text='BOUNDED (cloud of 2 points, 3-D double): the estimation step is run once per point for that point, the stored normal is +/- the eigenvector of the smallest eigenvalue, has unit length, faces the sensor origin (normal . point <= 0), the curvature is the smallest eigenvalue over the sum and lies in [0, 1/3]; from any prior state. That the eigenvector is the least-variance direction of the k nearest neighbours (covariance accumulation, nanoflann, SelfAdjointEigenSolver), planar exactness, rotation equivariance, 2-D, float and homogeneous points are NOT decided.',
+   note=TB_B + '; planeEstimation_ enters by an assumed contract (ascending non-negative eigenvalues with positive sum, unit first eigenvector); std::copy over .data() read in column-major storage order; every obligation is labelled bounded and none is counted as discharged', ref='DESIGN.md 9.8'),
+})
 COMMON_NA = "the deciding computation is a third-party header-only kernel that contract-based verification cannot reach here: CBMC's C++ front end does not parse Eigen/nanoflann, the extractor covers fixed-size coefficient-wise Eigen only, and a contract on the kernel would have to be assumed in full, after which nothing of the property is left to prove; switching to testing or model checking would be a different technique family (DESIGN.md 5, 9.6)"
 CLAIMED.update({
  'C04': dict(cat='proof', technique='SMT / exact-polynomial verification conditions on the extracted estimator with Eigen::JacobiSVD under an assumed contract (orthogonal U and V) and havocked accumulation loops; algebraic certificates; CBMC code contracts with a loop invariant for PreconditionedPointSet',
@@ -81,7 +86,6 @@ CLAIMED.update({
 NA = {
  'C06': 'ICP + RANSAC convergence envelope on a data file: an empirical convergence statement about an iterative, randomised pipeline (nanoflann kd-tree, Eigen solvers, std::mt19937), not a per-call pre/postcondition; %s',
  'C08': 'kd-tree queries: the search is about 1400 lines of vendored nanoflann templates (recursive tree build, heap result sets); the repository part is a forwarding call; %s',
- 'C09': 'surface normals: eigenvector of Eigen::SelfAdjointEigenSolver on neighbourhoods returned by the nanoflann kd-tree; unit length, least-variance direction, curvature range and rotation equivariance are properties of that solver output in floating point (the sensor-facing flip alone decides no clause); %s',
 }
 NA = {k: v % COMMON_NA for k, v in NA.items()}
 def main():
